@@ -55,11 +55,16 @@ def thaw(case):
 NT_SWAPPED = ["A", "S"] + NT[2:]      # the start variable is called A, another non-terminal is called S
 
 
-def ref_rules(case, NT=NT):
+NT_CLASH = ["S", "A", "epsilon"] + NT[3:]     # a non-terminal spelt like the epsilon marker
+IX_CLASH = [1, "1"]                           # index symbols of different types with one spelling
+TER_CLASH = "A"                               # the terminal is spelt like a non-terminal
+
+
+def ref_rules(case, NT=NT, IX=IX, ter="a"):
     out = []
     for r in case[0]:
         if r[0] == 0:
-            out.append(("end", NT[r[1]], "epsilon" if r[2] else "a"))
+            out.append(("end", NT[r[1]], "epsilon" if r[2] else ter))
         elif r[0] == 1:
             out.append(("prod", NT[r[1]], NT[r[2]], IX[r[3]]))
         elif r[0] == 2:
